@@ -130,6 +130,22 @@ def a7(ctx, F, fn, body, sym):
     """A7 each clock word of `go` fills its own parameter: the arm for `wtime` stores the parsed number in wtime (not in btime, not
     twice for one word) - the budget clauses take the parameters as given, this is where they are given."""
     WORDS = {"wtime": ("wtime",), "btime": ("btime",), "winc": ("winc",), "binc": ("binc",), "movetime": ("move_time", "movetime")}
+    return _word_table(ctx, fn, body, WORDS, "C13.A7", "each-clock-word-fills-its-own-parameter",
+                       "a clock word of `go` is not stored in its own parameter: the budget is computed from the wrong number or never "
+                       "(with one of the four missing there is no clock budget and the search runs until stopped)")
+
+
+def depth_word(ctx, F, rule="C08.L8"):
+    """the `depth` word of `go` fills the depth limit (the same table of words as A7): without its arm `go depth N` is an unlimited
+    search"""
+    fn = F.fn(GO)
+    WORDS = {"wtime": ("wtime",), "btime": ("btime",), "winc": ("winc",), "binc": ("binc",), "depth": ("depth", "max_depth", "depth_limit")}
+    return _word_table(ctx, fn, fn["hir"]["body"], WORDS, rule, "the-depth-word-fills-the-depth-limit",
+                       "the `depth` word of `go` is not stored in the depth limit: `go depth N` searches without a limit (no bestmove "
+                       "until `stop`)", only=("depth",))
+
+
+def _word_table(ctx, fn, body, WORDS, rule, name, what, only=None):
     table = None
     for n, _ in hir.walk(body):
         if n.get("k") == "Match" and n.get("src") == "Normal":
@@ -156,15 +172,20 @@ def a7(ctx, F, fn, body, sym):
             bad.append((w_, "a second arm for the same word (never reached)"))
             continue
         seen.add(w_)
-        if len(tg) != 1 or str(tg[0]).split("'")[0] not in WORDS[w_]:
+        if only:
+            # (names are free here: one store, into a variable no other word of the table stores into)
+            others = {str(x_).split("'")[0] for w2, tg2 in t if w2 != w_ for x_ in tg2}
+            if len(tg) != 1 or str(tg[0]).split("'")[0] in others:
+                bad.append((w_, "stores into %s" % tg))
+        elif len(tg) != 1 or str(tg[0]).split("'")[0] not in WORDS[w_]:
             bad.append((w_, "stores into %s" % tg))
     for w_ in WORDS:
         if w_ not in seen:
             bad.append((w_, "no arm"))
-    ctx.check("C13.A7", "each-clock-word-fills-its-own-parameter", not bad, fn=GO, file=fn["file"], line=hir.line(n),
-              what="a clock word of `go` is not stored in its own parameter: the budget is computed from the wrong number or never "
-                   "(with one of the four missing there is no clock budget and the search runs until stopped)",
-              expected={k: v[0] for k, v in WORDS.items()}, found=bad)
+    if only:
+        bad = [b_ for b_ in bad if b_[0] in only]
+    ctx.check(rule, name, not bad, fn=GO, file=fn["file"], line=hir.line(n), what=what,
+              expected={k: v[0] for k, v in WORDS.items() if not only or k in only}, found=bad)
 
 
 def a1(ctx, F, fn, body, sym):
